@@ -378,6 +378,51 @@ pub fn judge(case: &Case, l: &mut Local) {
         }
     }
 
+    if !degenerate {
+        // the plane with its normal inverted occupies the same position: it cuts the same section
+        l.eval();
+        let inv = s.plane.inverted_normal();
+        verif::set_budget(200_000);
+        let ri = guarded(|| s.mesh.section(&inv, None).map_err(|e| e.to_string()));
+        reset_budget();
+        match ri {
+            Ok(Ok(ci)) => {
+                let li: f64 = ci.iter().map(|c| c.length()).sum();
+                let ni: usize = ci.iter().map(|c| c.count() - 1).sum();
+                let on = ci.iter().all(|c| c.points().iter().all(|p| s.plane.signed_distance_to_point(p).abs() <= 2e-6));
+                l.bucket("section by the plane with inverted normal");
+                l.check("the plane with its normal inverted cuts the same section", "", on && ci.len() == curves.len() && ni == nseg && (li - tot_len).abs() <= 1e-6 * (1.0 + tot_len), mk, || {
+                    format!("inverted: {} curves, {} segments, length {}, on the plane {}; direct: {} curves, {} segments, length {}", ci.len(), ni, li, on, curves.len(), nseg, tot_len)
+                });
+            }
+            Ok(Err(e)) => {
+                l.check("section returns", "err", false, mk, || format!("inverted plane: {}", e));
+            }
+            Err(e) => {
+                l.check("section returns", if e.contains("VERIF_BUDGET") { "budget" } else { "panic" }, false, mk, || format!("inverted plane: {}", e));
+            }
+        }
+        // a section curve moved rigidly is the curve through the moved vertices, on the moved plane
+        let iso = gen::iso3_poses()[(case.normal + 1) % 5];
+        let back = iso.inverse();
+        for c in curves.iter() {
+            l.eval();
+            match guarded(|| c.transformed_by(&iso)) {
+                Ok(m) => {
+                    let same = m.count() == c.count() && m.points().iter().zip(c.points().iter()).all(|(q, p)| d3(q, &(iso * p)) <= 1e-9 * (1.0 + q.coords.norm()));
+                    let on = m.points().iter().all(|q| s.plane.signed_distance_to_point(&(back * q)).abs() <= 2e-6);
+                    l.bucket("section curve moved rigidly");
+                    l.check("a moved section curve passes through the moved vertices and lies on the moved plane", "", same && on && (m.length() - c.length()).abs() <= 1e-9 * (1.0 + c.length()), mk, || {
+                        format!("vertices moved {} on the moved plane {} length {} vs {}", same, on, m.length(), c.length())
+                    });
+                }
+                Err(e) => {
+                    l.check("a moved section curve passes through the moved vertices and lies on the moved plane", "panic", false, mk, || e.clone());
+                }
+            }
+        }
+    }
+
     // the optional tolerance is the *curve* tolerance of the result (vertices closer than it are merged);
     // it must not move the cut: every vertex still lies on the plane and on the surface, and nothing
     // longer than the merged pieces is lost
@@ -592,7 +637,7 @@ pub fn run(tier: Tier) -> i32 {
     let mut cx = Ctx::new("C13", tier, "exploration");
     cx.rule = "meshes: 3 boxes, 3- and 6-gon prisms, capped 6- and 16-gon cylinders, octahedral spheres (1 and 2 subdivisions), 8x6 torus, tetrahedron (watertight) and open tube, quad, 4 height fields x 3 (thorough 5) poses x 32 plane normals (26 lattice + 6 skew) x offset fractions (-0.1 .. 1.1 and absolute offsets just off a vertex) x curve tolerance {default, 5e-3, 0.05}; each (mesh, plane) pair is classified by a reference computation before the call: pairs whose section polyline would be open (a boundary edge straddles the plane) form the open-section class, probed by 3 representatives; every sweep runs in worker processes limited to 3 GB of address space with a 30 s per-case watchdog, so that an abort or runaway allocation inside the library or parry is reported for the case in progress instead of ending the check. distinct = distinct (mesh, pose, plane) cases".into();
     cx.bounds = json!({"meshes": CLOSED.len() + OPEN.len(), "poses": tier.pick(3, 5), "normals": normals().len(), "fractions": FRACS, "worker_address_space_kb": WORKER_MEM_KB, "per_case_watchdog_s": ITEM_TIMEOUT_S});
-    cx.require(&["plane nipping a corner or shaving a sliver", "plane crossing the mesh", "plane missing the mesh", "plane through a vertex (degenerate probe)", "open-section class (not executed in-process)", "section with a coarse curve tolerance"]);
+    cx.require(&["plane nipping a corner or shaving a sliver", "plane crossing the mesh", "plane missing the mesh", "plane through a vertex (degenerate probe)", "open-section class (not executed in-process)", "section with a coarse curve tolerance", "section by the plane with inverted normal", "section curve moved rigidly"]);
     cx.assume("planes within 1e-5 of a mesh vertex are degenerate probes: only 'returns, vertices on the plane and on the surface' is judged there");
     let cs = cases(tier);
     let l = isolated(tier, "main", cs.len(), &|i| serde_json::to_value(&cs[i]).unwrap());
